@@ -61,7 +61,7 @@ class BuildMachine(Machine):
     def draw_config(self, st: Streams, idx: int) -> dict:
         w = st.w
         return dict(
-            steps=w.randint(1, 6),
+            steps=w.randint(1, 14 if self.tier == "thorough" else 6),
             platform=w.choice(["ios", "ios", "nxos"]),
             faults=w.random() < 0.3,
             p_invalid=w.choice([0.0, 0.15, 0.3, 0.6]),
